@@ -1,7 +1,7 @@
 #!/bin/bash
-# Re-runs every adopted seeded change against the current /repo HEAD and /verif (3 in parallel).
+# Re-runs every adopted seeded change (or those matching the glob $1, e.g. "C0[1-3]-*") against the current /repo HEAD and /verif (PAR in parallel, default 3).
 cd "$(dirname "$(readlink -f "$0")")/.." || exit 2
-ls -d seeded/*/ | xargs -P ${PAR:-3} -I{} bash -c '
+ls -d seeded/${1:-*}/ | xargs -P ${PAR:-3} -I{} bash -c '
   d={}; n=$(basename $d); p=$(python3 -c "import json;print(json.load(open(\"$d/meta.json\"))[\"property\"])")
   python3 tools/seeded.py $d $p --no-baseline 2>/dev/null | python3 -c "
 import json,sys
